@@ -493,6 +493,11 @@ func (e *vfEnv) checkRead(op *vfOp, final bool) {
 	if final {
 		where = "final read"
 	}
+	if op.err != nil && !op.hit && e.sc.commitRefusal && e.sc.useProxy && op.Res == "err500" && !final {
+		// a backend fetch whose commit the index refuses (other requests' reservations fill the
+		// cache) surfaces as an internal error: an error, never wrong content (C12: "miss or error")
+		return
+	}
 	if op.err != nil && !op.hit {
 		e.violate("read-error "+op.Res, "%s of %s by %s returned an error: %v", where, op.Key[:10], op.Thread, op.err)
 		return
@@ -727,6 +732,30 @@ func vfScenarios() []*vfScenario {
 					func(e *vfEnv, th string) { e.get(th, cache.CAS, X.hash, -1, 1, true) },
 				},
 				finals: []vfFinal{{cache.CAS, X.hash}}})
+		}
+
+		// an overwrite that arrives WITHOUT a reservation of its own (a backend fetch of unknown
+		// size commits) while another upload's reservation nearly fills the cache and a third
+		// request uploads the same key: the index may have to evict the very entry it overwrites
+		{
+			ack14 := strings.Repeat("e4", 32)
+			big14 := vlib.Bytes("s14-backend-value", 12289, false) // 4 blocks
+			small14 := vlib.Bytes("s14-upload", 5000, false)       // 2 blocks
+			x14 := vlib.Bytes("s14-x", 28000, false)               // reserves 7 blocks of 10
+			xk := strings.Repeat("f5", 32)
+			out = append(out, &vfScenario{name: "S14-unreserved-overwrite-under-reservation/" + mode, mode: mode, maxSize: 10 * 4096, useProxy: true, commitRefusal: true, pressure: true,
+				setup: func(e *vfEnv) {
+					e.proxy.Set(cache.AC, ack14, big14, int64(len(big14)))
+					e.legal("ac/"+ack14, big14)
+					e.legal("ac/"+ack14, small14)
+					e.legal("raw/"+xk, x14)
+				},
+				threads: []func(*vfEnv, string){
+					func(e *vfEnv, th string) { e.put(th, cache.RAW, xk, x14) },
+					func(e *vfEnv, th string) { e.get(th, cache.AC, ack14, -1, 0, false) },
+					func(e *vfEnv, th string) { e.put(th, cache.AC, ack14, small14) },
+				},
+				finals: []vfFinal{{cache.AC, ack14}, {cache.RAW, xk}}})
 		}
 
 		// C10: FindMissing over 25 digests (two internal batches) while two of
